@@ -27,6 +27,8 @@ type RunReport struct {
 	Foreign     []string         `json:"foreign,omitempty"`
 	Trace       *core.Trace      `json:"trace,omitempty"`
 	Inputs      int              `json:"inputs,omitempty"`
+	SubEvals    int              `json:"sub_evals,omitempty"`
+	SubFP       []string         `json:"sub_fp,omitempty"`
 	Steps       int              `json:"steps"`
 	WallMs      int64            `json:"wall_ms"`
 }
@@ -52,7 +54,7 @@ func SilenceStdout() *os.File {
 
 func report(out *props.RunOut, seed uint64, wantTrace bool, t0 time.Time) *RunReport {
 	rep := &RunReport{Seed: seed, Violations: out.Violations, Stats: out.Stats, NonTrivial: out.NonTrivial,
-		HarnessErr: out.HarnessErr, Foreign: out.Foreign, Inputs: out.Inputs, WallMs: time.Since(t0).Milliseconds()}
+		HarnessErr: out.HarnessErr, Foreign: out.Foreign, Inputs: out.Inputs, SubEvals: out.SubEvals, SubFP: out.SubFP, WallMs: time.Since(t0).Milliseconds()}
 	if out.Stats != nil {
 		rep.Fingerprint = out.Stats.Fingerprint()
 	}
